@@ -27,7 +27,7 @@ def cases(tier, seed):
         items += list(R.nestings(3).items())
     for name, term in items:
         depth1 = "(" not in name
-        for b in ([], [2]):
+        for b in ([], [2]) + (([1],) if tier == "thorough" else ()):  # a singleton batch dimension (thorough)
             for src in ("f64", "f32"):
                 for dflt in ("f32", "f64"):
                     if not depth1 and (src, dflt) not in (("f64", "f32"),):
